@@ -1,5 +1,6 @@
 import Capella.Lemmas.Delete
 import Capella.Lemmas.AccessorProps
+import Capella.Lemmas.DeclDelete
 
 /-!
 # C09 — deleting an object is all-or-nothing and leaves no reachable reference to it
@@ -128,6 +129,102 @@ theorem deletion_keeps_indexes_right (t : Tables) (self : ARow) (elements : List
   (pres_deleteElems t self elements).pres s h
 
 end Accessor
+
+/-! ### the declarative entry point (`decl.py: _operate_delete`, `Model/DeclDelete.lean`) -/
+section Decl
+open Capella.DeclDelete
+
+/-- **Exactly the named objects, whatever the order they are named in.** A `delete:` entry that names members of one
+coupled list (`ms`, no member twice) and runs to its end has handed exactly the named objects, in the order named, to
+the per-object deletion; the list has lost exactly those members and keeps all others in their order; the state is
+the one reached by deleting exactly the named objects. `del1` (the per-object deletion) and `res` (`by_uuid`) are
+arbitrary: this is the index arithmetic of the loop alone. -/
+theorem decl_delete_removes_exactly_the_named {σ : Type} (del1 : σ → Nat → Except DeclDelete.Err σ)
+    (res : σ → Nat → Bool) (s : σ) (ms named : List Nat) (hnd : ms.Nodup)
+    (h : (delMembers del1 res s ms [] named).err = none) :
+    (delMembers del1 res s ms [] named).deleted = named ∧
+    (delMembers del1 res s ms [] named).members = ms.filter (fun m => decide (m ∉ named)) ∧
+    applyAll del1 s named = some (delMembers del1 res s ms [] named).st := by
+  obtain ⟨k, _, h1, h2, h3, h4⟩ := delMembers_spec del1 res s ms [] named hnd
+  have hk := h4.mp h
+  subst hk
+  simp only [List.take_length, List.nil_append] at h1 h2 h3
+  exact ⟨h1, h2, h3⟩
+
+/-- **Every permutation**: the same members named in another order leave the same list behind and delete the same
+set of objects. -/
+theorem decl_delete_order_independent {σ : Type} (del1 : σ → Nat → Except DeclDelete.Err σ)
+    (res : σ → Nat → Bool) (s : σ) (ms named named' : List Nat) (hnd : ms.Nodup) (hp : named.Perm named')
+    (h : (delMembers del1 res s ms [] named).err = none) (h' : (delMembers del1 res s ms [] named').err = none) :
+    (delMembers del1 res s ms [] named).members = (delMembers del1 res s ms [] named').members ∧
+    (delMembers del1 res s ms [] named).deleted.Perm (delMembers del1 res s ms [] named').deleted := by
+  obtain ⟨a1, a2, _⟩ := decl_delete_removes_exactly_the_named del1 res s ms named hnd h
+  obtain ⟨b1, b2, _⟩ := decl_delete_removes_exactly_the_named del1 res s ms named' hnd h'
+  rw [a1, a2, b1, b2]
+  refine ⟨List.filter_congr (fun x _ => ?_), hp⟩
+  simp [hp.mem_iff]
+
+/-- **A refusal is per object**: when the entry ends with an error, the objects named in front of the failing one —
+exactly those — are deleted; the failing object, everything named after it and every other member are still in the
+list, and the state is the one reached by deleting exactly that prefix (the failing deletion itself changed nothing:
+`delete_refused_changes_nothing`, `refused_deletion_changes_nothing_api`). -/
+theorem decl_delete_refusal_keeps_the_rest {σ : Type} (del1 : σ → Nat → Except DeclDelete.Err σ)
+    (res : σ → Nat → Bool) (s : σ) (ms named : List Nat) (hnd : ms.Nodup) (e : DeclDelete.Err)
+    (h : (delMembers del1 res s ms [] named).err = some e) :
+    ∃ k, k < named.length ∧
+      (delMembers del1 res s ms [] named).deleted = named.take k ∧
+      (delMembers del1 res s ms [] named).members = ms.filter (fun m => decide (m ∉ named.take k)) ∧
+      applyAll del1 s (named.take k) = some (delMembers del1 res s ms [] named).st := by
+  obtain ⟨k, hk, h1, h2, h3, h4⟩ := delMembers_spec del1 res s ms [] named hnd
+  refine ⟨k, ?_, by simpa using h1, h2, h3⟩
+  rcases Nat.lt_or_eq_of_le hk with hlt | heq
+  · exact hlt
+  · rw [h4.mpr heq] at h; cases h
+
+/-- **On the reference graph** (per-object deletion = the two-phase deletion of `Model/Delete.lean`, subtrees within
+one fragment file): after an entry that ran to its end every named object is gone with its whole subtree, no
+remaining reference is stored inside a deleted subtree or — if a writable relation exposes it — points into one,
+and every remaining element and reference existed before. -/
+theorem decl_delete_on_graph (c : Ctx) (hloc : ∀ x, c.loc x = c.sub x) (g : G) (ms named : List Nat)
+    (hnd : ms.Nodup) (h : (delMembers (del1 c) resolvable g ms [] named).err = none) :
+    let g' := (delMembers (del1 c) resolvable g ms [] named).st
+    (∀ x ∈ named, ∀ n ∈ c.sub x, n ∉ g'.elems) ∧
+    (∀ x ∈ named, ∀ q ∈ g'.refs, q.owner ∉ c.sub x ∧
+      (q.target ∈ c.sub x → q.kind = .readOnly ∨ q.kind = .unexposed)) ∧
+    (∀ q ∈ g'.refs, q ∈ g.refs) ∧ (∀ n ∈ g'.elems, n ∈ g.elems) := by
+  obtain ⟨_, _, h3⟩ := decl_delete_removes_exactly_the_named (del1 c) resolvable g ms named hnd h
+  obtain ⟨b1, b2, b3, b4⟩ := applyAll_spec c hloc named g _ h3
+  exact ⟨b3, b4, b1, b2⟩
+
+/-- **Nothing else has been removed**: an element of the model that lies in none of the named subtrees and is not a
+link element pointing into one of them (such a link element IS a reference to a deleted object and goes with it) is
+still in the model after the entry has run. -/
+theorem decl_delete_keeps_everything_else (c : Ctx) (hloc : ∀ x, c.loc x = c.sub x) (g : G) (ms named : List Nat)
+    (hnd : ms.Nodup) (h : (delMembers (del1 c) resolvable g ms [] named).err = none) (n : Nat) (hn : n ∈ g.elems)
+    (hs : ∀ x ∈ named, n ∉ c.sub x)
+    (hl : ∀ x ∈ named, ∀ q ∈ g.refs, q.kind = .linkElem → q.target ∈ c.sub x → q.carrier ≠ n) :
+    n ∈ (delMembers (del1 c) resolvable g ms [] named).st.elems := by
+  obtain ⟨_, _, h3⟩ := decl_delete_removes_exactly_the_named (del1 c) resolvable g ms named hnd h
+  exact applyAll_keeps_the_rest c hloc named g _ h3 n hn hs hl
+
+end Decl
+
+-- Non-vacuity: members 1..4 of one list, 3 holds a child 30 that a link element 9 of element 8 points at; named out of
+-- list order [3, 1]: exactly 1, 3 (with 30 and the link element) go, 2 and 4 stay; a refusing reference to 4 stops
+-- [1, 4, 2] after 1.
+def exD : G := { elems := [1, 2, 3, 4, 30, 8, 9, 7],
+                 refs := [⟨8, "links", .linkElem, 30, 9⟩, ⟨7, "ends", .refusing, 4, 7⟩] }
+def exC : DeclDelete.Ctx := { subs := [(3, [3, 30], [3, 30])], parentless := [] }
+example : (let r := DeclDelete.delMembers (DeclDelete.del1 exC) DeclDelete.resolvable exD [1, 2, 3, 4] [] [3, 1]
+    (r.err, r.deleted, r.members, r.st.elems)) = (none, [3, 1], [2, 4], [2, 4, 8, 7]) := by decide
+example : (let r := DeclDelete.delMembers (DeclDelete.del1 exC) DeclDelete.resolvable exD [1, 2, 3, 4] [] [1, 4, 2]
+    (r.err, r.deleted, r.members, r.st.elems)) = (some .notImplemented, [1], [2, 3, 4], [2, 3, 4, 30, 8, 9, 7]) := by decide
+def exR1 := DeclDelete.operateDelete exC [("a", [1, 2, 3, 4]), ("b", [8])] exD []
+  [DeclDelete.Entry.members "a" [4], DeclDelete.Entry.whole "b"]
+example : (exR1.err, exR1.deleted) = (some DeclDelete.Err.notImplemented, []) := by decide
+def exR2 := DeclDelete.operateDelete exC [("a", [1, 2, 3, 4]), ("b", [8, 7])] exD []
+  [DeclDelete.Entry.members "a" [3, 2], DeclDelete.Entry.whole "b", DeclDelete.Entry.members "a" [1]]
+example : (exR2.err, exR2.deleted, exR2.g.elems) = (none, [3, 2, 8, 7, 1], [4]) := by decide
 
 -- Non-vacuity: the enter phase can fail (here: the target is not an element of the model), which is the hypothesis
 -- of `refused_deletion_changes_nothing_api`.
